@@ -162,6 +162,7 @@ T = {
     "C15-m6-backend-context-extraprec-cached-at-first-call": ("vectorize_with_mpmath.backend_context computes the extra working precision at the first call and reuses it", "extra_prec_multiplier != 0 and ONE instance called first with a narrow float type and then with a wider one, on an input that needs the wider type's working precision", False, "C15 instance-reuse histories: one backend instance called with every sequence of float types (length <= 2 quick, 3 thorough) x option sets; (x+1)-1 must return x on every point the promised working precision makes exact"),
     "C17-m6-ln2inv-wrong-digit": ("get_log2_doubleword_and_inverse: 1/ln2 = 1.44269504... typed as 1.44260504... (relative error 6e-5)", "float64 only, |x| in about 555..709.78 and frac(|x|/ln2) in a window < 0.014 wide just above 0.55: k is one too small, |r+c| > 0.55 ln2, reconstruction still exact", False, "C17 exponential points at the edges of the permitted remainder band, (k + 0.4495) ln2 and (k + 0.5505) ln2 with ULP neighbourhoods for every k of the domain and both signs (where only the nearest integer is an admissible k), plus the fractional lattice (k + j/16) ln2; the trigonometric analogue for k < K"),
     "C17-m7-trig-bypass-select-without-abs": ("argument_reduction_trigonometric_impl: small-argument bypass `abs(x) < pi/4` -> `x < pi/4` for r only (t keeps abs)", "any negative x with |x| >= pi/4 (the package test samples positive x only)", True, ""),
+    "C15-m7-float-minexp-table-float64-off-by-one": ("vectorize_with_mpmath.float_minexp table: float64 -1021 -> -1020", "float64 only, flush_subnormals=True explicitly, value in the lowest normal binade [2^-1022, 2^-1021): flushed to +-0", True, ""),
 }
 
 
